@@ -88,7 +88,7 @@ def cases48(draw, tier):
         org = min(org, 65536 - n)
         case['clear'] = clear
     else:
-        org = draw(st.sampled_from([24000, 32768, 65536 - n, 16384 if n <= 6000 else 30000, 23800]) | st.integers(23800, 65536 - n))
+        org = draw(st.sampled_from([24000, 32768, 65536 - n, 16384 if n <= 6000 else 30000, 23800, 22528 if n <= 600 else 24000, 18000 if n <= 5000 else 32768]) | st.integers(23800, 65536 - n))
         org = max(16384, min(org, 65536 - n))
         if org < 23800 and org + n > 23200:
             org = 23800 if 23800 + n <= 65536 else 65536 - n     # keep clear of the loader code and system variables
